@@ -49,6 +49,9 @@ type Meta struct {
 type Program struct {
 	Text string `json:"text"`
 	Meta Meta   `json:"meta"`
+	// Lead is the text of the leading filter/search operator when
+	// Options.LeadingFilter was set (Text == Lead or Lead + " | " + rest).
+	Lead string `json:"lead,omitempty"`
 }
 
 // st is what the generator knows about the stream at some point of the pipeline.
@@ -86,8 +89,14 @@ func Gen(t *rapid.T, s *Schema, o Options) Program {
 	state := &st{ordered: true, recs: s.AllRecords, fields: append([]*Field(nil), s.Fields...)}
 	var ops []string
 	n := 1 + Uniform(t, o.MaxOps, "nops")
+	lead := ""
 	if o.LeadingFilter {
-		ops = append(ops, g.filterOp(state))
+		if g.chance(70, "pushablelead") {
+			lead = g.pushableFilterOp(state)
+		} else {
+			lead = g.filterOp(state)
+		}
+		ops = append(ops, lead)
 		n--
 	}
 	for i := 0; i < n; i++ {
@@ -96,7 +105,7 @@ func Gen(t *rapid.T, s *Schema, o Options) Program {
 	if !state.ordered && g.det && Chance(t, o.EndOrdered, "endorder") {
 		ops = append(ops, g.restore(state))
 	}
-	p := Program{Text: strings.Join(ops, " | ")}
+	p := Program{Text: strings.Join(ops, " | "), Lead: lead}
 	p.Meta.Ordered = state.ordered && g.det
 	p.Meta.Deterministic = g.det
 	for f := range g.feats {
@@ -231,6 +240,128 @@ func (g *G) filterOp(s *st) string {
 		}
 		return e
 	}
+}
+
+func nonNumeric(l Lit) bool {
+	switch l.Kind {
+	case "string", "ip", "net", "bool", "bytes", "type", "time", "duration":
+		return l.Plain
+	}
+	return false
+}
+
+func nonNumericLits(list []Lit, noNet bool) []Lit {
+	var out []Lit
+	for _, l := range list {
+		if nonNumeric(l) && !(noNet && l.Kind == "net") {
+			out = append(out, l)
+		}
+	}
+	return out
+}
+
+// pushableTerm draws a filter term for which the ZNG scanner can build a
+// buffer filter: a keyword / string search term, a non-numeric literal search
+// term, field==literal or literal in field with a non-numeric literal.
+// Literals are values the input holds (80%), so the term usually selects something.
+func (g *G) pushableTerm(s *st) string {
+	known := append(append([]*Field{}, s.fields...), g.s.Nested...)
+	for try := 0; try < 8; try++ {
+		switch g.intn(10, "pushkind") {
+		case 0, 1, 2:
+			w := g.word()
+			if len(w) < 2 {
+				continue
+			}
+			g.feat("keyword")
+			if reservedWords[strings.ToLower(w)] || g.chance(20, "pushquoted") {
+				return "\"" + w + "\""
+			}
+			return w
+		case 3:
+			if len(g.s.StringLits) > 0 {
+				if l := g.s.StringLits[g.intn(len(g.s.StringLits), "pushstr")]; len(l.Text) >= 4 {
+					g.feat("string-literal-term")
+					return l.Text
+				}
+			}
+		case 4:
+			var c []Lit
+			for _, l := range g.s.AnyLits {
+				if nonNumeric(l) && l.Kind != "string" && l.Kind != "bool" && l.Kind != "net" {
+					c = append(c, l)
+				}
+			}
+			if len(c) > 0 {
+				lit := c[g.intn(len(c), "pushanylit")]
+				g.feat("literal-term:" + lit.Kind)
+				return lit.Text
+			}
+		case 5, 6, 7:
+			var c []*Field
+			for _, f := range known {
+				if !f.Generic && len(nonNumericLits(f.Lits, false)) > 0 {
+					c = append(c, f)
+				}
+			}
+			if len(c) == 0 {
+				continue
+			}
+			f := c[g.intn(len(c), "pusheqfield")]
+			lits := nonNumericLits(f.Lits, false)
+			lit := lits[g.intn(len(lits), "pusheqlit")]
+			if g.chance(15, "pusheqother") {
+				if o := g.litFor(f); nonNumeric(o) {
+					lit = o
+				}
+			}
+			g.feat("field==literal:" + lit.Kind)
+			return f.Name + "==" + lit.Text
+		default:
+			var c []*Field
+			for _, f := range known {
+				if !f.Generic && len(nonNumericLits(append(append([]Lit{}, f.ElemLits...), f.MapKeys...), true)) > 0 {
+					c = append(c, f)
+				}
+			}
+			if len(c) == 0 {
+				continue
+			}
+			f := c[g.intn(len(c), "pushinfield")]
+			lits := nonNumericLits(append(append([]Lit{}, f.ElemLits...), f.MapKeys...), true)
+			lit := lits[g.intn(len(lits), "pushinlit")]
+			g.feat("literal-in-field")
+			ref := f.Name
+			if g.chance(15, "pushinthis") {
+				ref = "this"
+			}
+			return lit.Text + " in " + ref
+		}
+	}
+	g.feat("keyword")
+	return g.word()
+}
+
+// pushableFilterOp draws a leading search whose predicate (or a conjunct of
+// it) compiles to a buffer filter.
+func (g *G) pushableFilterOp(s *st) string {
+	g.feat("search")
+	t := g.pushableTerm(s)
+	switch g.intn(8, "pushcombo") {
+	case 0:
+		g.feat("and")
+		t += " and " + g.pushableTerm(s)
+	case 1:
+		g.feat("or")
+		t = "(" + t + " or " + g.pushableTerm(s) + ")"
+	case 2:
+		g.feat("and")
+		t += " and " + g.searchTerm(s)
+	case 3:
+		g.feat("and")
+		t = "(" + t + " or " + g.pushableTerm(s) + ") and " + g.pushableTerm(s)
+	}
+	return "search " + t
 }
 
 func (g *G) freshName(s *st) string {
